@@ -152,3 +152,21 @@ Proof.
   intros order H. destruct w7_all_orders as [A B]. rewrite forallb_forall in A, B.
   apply in_app_or in H as [H|H]; [apply A|apply B]; exact H.
 Qed.
+
+(* ---------- fuel ---------- *)
+(* The code re-indexes the blobs woken by an arrival without any bound on the depth of the cascade; the model's [receive]
+   takes fuel.  Too little fuel is not harmless: a blob can be committed by a call that has no fuel left for the blobs it
+   wakes, and a later call skips it because it is already fully indexed.  In this four-blob world (1 waits for the row
+   of 2; 2 and 3 fetch 1; 4 waits for the row of 3) fuel 3 and every fuel >= 5 reach the SPEC on all 24 arrival orders,
+   fuel 4 does not.  The correspondence runs use fuel 12. *)
+Definition wq : list blob :=
+  [ {| b_id := 1; b_fdeps := []; b_idep := Some 2 |};
+    {| b_id := 2; b_fdeps := [1]; b_idep := None |};
+    {| b_id := 3; b_fdeps := [1]; b_idep := None |};
+    {| b_id := 4; b_fdeps := []; b_idep := Some 3 |} ].
+Definition agrees_with (fuel : nat) (world : list blob) (order : list N) : bool :=
+  forallb (fun b => status_eqb (status_of (run world fuel order) (b_id b)) (expected world order (b_id b))) world.
+Lemma fuel_matters :
+  forallb (agrees_with 12 wq) (perms [1; 2; 3; 4]) = true /\ forallb (agrees_with 5 wq) (perms [1; 2; 3; 4]) = true /\
+  agrees_with 4 wq [3; 2; 4; 1] = false.
+Proof. vm_compute. repeat split. Qed.
